@@ -116,6 +116,11 @@ C['vf_eit_first_success3'] = (['__CPROVER_is_fresh(os, 1)', '__CPROVER_is_fresh(
                                'c_fs_s == __CPROVER_old(c_fs_s) + (%s ? 1 : (%s ? 2 : 3))' % (S(0), S(1)),
                                'VF_IMP(!*os, *nfail == 3 && fails[0] == %s && fails[1] == %s && fails[2] == %s)' % (FL(0), FL(1), FL(2))],
                               'either::first_success: the success with the smallest index, functions after it are never invoked; all failures in order if none succeeds')
+C['vf_eit_first_success2'] = (['__CPROVER_is_fresh(os, 1)', '__CPROVER_is_fresh(ov, 4)', '__CPROVER_is_fresh(nfail, 4)', '__CPROVER_is_fresh(fails, 8)'],
+                              ['*os', '*ov', '*nfail', '__CPROVER_object_whole(fails)'] + G('fs_s', 'fs_v', 'fs_f'),
+                              ['*os == (%s || %s)' % (S(0), S(1)), 'VF_IMP(*os, *ov == (%s ? %s : %s))' % (S(0), V(0), V(1)), 'c_fs_s == __CPROVER_old(c_fs_s) + (%s ? 1 : 2)' % S(0),
+                               'VF_IMP(!*os, *nfail == 2 && fails[0] == %s && fails[1] == %s)' % (FL(0), FL(1))],
+                              'either::first_success (2 functions): the success with the smallest index, the function after it is never invoked; all failures in order if none succeeds')
 C['vf_eit_loop'] = (['!%s || !%s || !%s' % (S(0), S(1), S(2))], G('fs_s', 'fs_v', 'fs_f', 'sink') + ['vf_loop_ctr'],
                     ['__CPROVER_return_value == (!%s ? %s : (!%s ? %s : %s))' % (S(0), FL(0), S(1), FL(1), FL(2)),
                      'c_fs_s == __CPROVER_old(c_fs_s) + (!%s ? 1 : (!%s ? 2 : 3))' % (S(0), S(1)),
@@ -150,8 +155,8 @@ def make(tier):
     u = P.unit('c04', 'shim.cpp', specs=['c04.spec'], harness=['c04_h.c'], pre=['c04_ghost.h'], inline=True, maxb=16)
     for f, (req, asg, ens, what) in C.items():
         kw = {}
-        if f in ('vf_eit_first_success3', 'vf_eit_loop'):
-            kw = dict(cls='B', unwind=18, bound='3 functions / first failure within 3 steps (std::vector of failures grows by push_back)', timeout=900)
+        if f in ('vf_eit_first_success3', 'vf_eit_first_success2', 'vf_eit_loop'):
+            kw = dict(cls='B', unwind=18, tier='thorough' if f == 'vf_eit_first_success3' else 'quick', bound='3 functions / first failure within 3 steps (std::vector of failures grows by push_back)', timeout=1800)
         else:
             kw = dict(cls='P', timeout=600)
         u.contract(f, backends=['sat', 'cvc5'], what=what, native=False, **kw)
